@@ -232,6 +232,29 @@ def handle (j : Json) : Except String Json := do
         ("merged", Json.arr (r.merged.map valToJson).toArray),
         ("order", Json.arr (r.loadOrder.map Json.str).toArray)])])
     | .error e => pure (errJson e)
+  | "libfs" =>
+    -- the library used directly: New, SetRoot*, (FileMatch,) MergeFile / MergeFileLayers per input
+    let fs ← fsOfJson j
+    let cwd := splitPath (← j.getObjValAs? String "cwd")
+    let env := envOfJson (j.getObjValD "env")
+    let roots := strList (j.getObjValD "roots")
+    let inputs := strList (j.getObjValD "inputs")
+    let skip := (j.getObjValD "skipParent") == Json.bool true
+    let fm := (j.getObjValD "fileMatch") == Json.bool true
+    let run : R (List Val × List Val) := do
+      let mut cfg : RootCfg := { root := [], cwd := cwd }
+      for r in roots do
+        cfg ← setRoot fs cfg r
+      let mut st := PState.empty
+      for inp in inputs do
+        let real ← if fm then (do let (r, _) ← fileMatch fs cwd inp; pure r) else pure (absPath cwd inp)
+        st ← if skip then mergeFileAlone fs cfg st real else mergeFileLayers fs cfg st real
+      let outs ← outputDocuments (st.docs.map (·.2)) env
+      pure (st.docs.map (·.2), outs)
+    match run with
+    | .ok (docs, outs) => pure (Json.mkObj [("ok", Json.mkObj [
+        ("merged", Json.arr (docs.map valToJson).toArray), ("docs", Json.arr (outs.map valToJson).toArray)])])
+    | .error e => pure (errJson e)
   | "wrap" =>
     let fs ← fsOfJson j
     let cwd := splitPath (← j.getObjValAs? String "cwd")
